@@ -74,6 +74,71 @@ impl Client {
     }
 }
 
+/// One TCP client that keeps its connection open across reloads (as long as the provider's idle
+/// time-out lets it): the second and later requests on a connection accepted *before* a reload
+/// must be answered from the reloaded data like any other request.
+pub(crate) struct TcpClient {
+    stream: Option<simrt::net::TcpStream>,
+    me: SocketAddr,
+    next_id: u16,
+    /// requests answered so far on the current connection
+    answered_on_conn: usize,
+}
+impl TcpClient {
+    pub fn new(i: usize) -> TcpClient {
+        TcpClient { stream: None, me: SocketAddr::new(IpAddr::V4(Ipv4Addr::new(10, 9, 1, 1 + i as u8)), 41_000 + i as u16), next_id: 0x7000, answered_on_conn: 0 }
+    }
+    fn exchange(stream: &mut simrt::net::TcpStream, msg: &[u8]) -> Option<Vec<u8>> {
+        use std::io::{Read, Write};
+        let mut framed = (msg.len() as u16).to_be_bytes().to_vec();
+        framed.extend_from_slice(msg);
+        stream.write_all(&framed).ok()?;
+        let mut got = vec![];
+        let mut buf = [0u8; 2048];
+        loop {
+            if got.len() >= 2 {
+                let n = u16::from_be_bytes([got[0], got[1]]) as usize;
+                if got.len() >= 2 + n {
+                    return Some(got[2..2 + n].to_vec());
+                }
+            }
+            match stream.read(&mut buf) {
+                Ok(0) | Err(_) => return None,
+                Ok(n) => got.extend_from_slice(&buf[..n]),
+            }
+        }
+    }
+    /// Returns the observation and whether it came over a connection that had already carried an
+    /// earlier exchange (`None`: the server could not be reached over TCP at all).
+    pub fn ask(&mut self, qname: &str, qtype: u16, class: u16) -> Option<(Obs, bool)> {
+        for _attempt in 0..2 {
+            self.next_id = self.next_id.wrapping_add(1);
+            let mut msg = query(qname, qtype, class);
+            msg[0] = (self.next_id >> 8) as u8;
+            msg[1] = self.next_id as u8;
+            if self.stream.is_none() {
+                let s = simrt::net::connect(server_addr(), self.me, 1 << 20).ok()?;
+                let _ = s.set_read_timeout(Some(Duration::from_secs(3)));
+                self.stream = Some(s);
+                self.answered_on_conn = 0;
+            }
+            let reused = self.answered_on_conn > 0;
+            match Self::exchange(self.stream.as_mut().unwrap(), &msg) {
+                Some(resp) if resp.len() >= 2 && resp[0] == msg[0] && resp[1] == msg[1] => {
+                    self.answered_on_conn += 1;
+                    return Some((decode_obs(&resp), reused));
+                }
+                _ => {
+                    // closed by the provider's idle time-out (or worse): start over on a new connection
+                    self.stream = None;
+                    simrt::probe("c31d_tcp_reconnect");
+                }
+            }
+        }
+        None
+    }
+}
+
 fn io_table(scn: &Scn) -> String {
     match scn.daemon_io {
         Some((base, linger, udp)) => format!("[io]\nprovider = \"blocking\"\ntcp_base_workers = {base}\ntcp_worker_linger = {linger}\nudp_workers_per_socket = {udp}\n"),
@@ -111,6 +176,7 @@ pub fn run(scn: &Scn) {
     let mut daemon_thread: Option<shuttle::thread::JoinHandle<Result<(), String>>> = None;
     let daemon_done = Arc::new(AtomicBool::new(false));
     let mut client = Client::new(0);
+    let mut tcp_client = TcpClient::new(0);
 
     for (si, step0) in scn.steps.iter().enumerate() {
         // command-line mode: the set of zones is fixed at start-up, only files change
@@ -252,6 +318,16 @@ pub fn run(scn: &Scn) {
                 viol("zone-served-from-wrong-data", format!("daemon mode (args={args_mode}), after step {si}: {marker} TXT class {class}: got {got_txt:?}, expected {exp_txt:?}; model {served:?}; step {step:?}"));
                 break;
             }
+            // the same question over the long-lived TCP connection
+            if let Some((got_tcp, reused)) = tcp_client.ask(&marker, wire::T_TXT, *class) {
+                if reused {
+                    simrt::probe("c31d_tcp_query_on_connection_older_than_reload");
+                }
+                if got_tcp != exp_txt {
+                    viol("zone-served-from-wrong-data", format!("daemon mode (args={args_mode}), after step {si}: {marker} TXT class {class} over TCP (connection reused: {reused}): got {got_tcp:?}, expected {exp_txt:?}; model {served:?}; step {step:?}"));
+                    break;
+                }
+            }
             let (got_soa, _) = client.ask(zname, wire::T_SOA, *class);
             if got_soa == Obs::NoResponse && lossy {
                 simrt::probe("c31d_query_unanswered");
@@ -267,6 +343,12 @@ pub fn run(scn: &Scn) {
         }
     }
     // --- shut the daemon down -------------------------------------------------------------------
+    // (the long-lived client goes away first in half of the runs; otherwise the daemon has to
+    // shut down with a connection still open)
+    let mut tcp_client = Some(tcp_client);
+    if scn.term_sigint {
+        tcp_client = None;
+    }
     if let Some(h) = daemon_thread.take() {
         if !daemon_done.load(SeqCst) {
             signal::raise(if scn.term_sigint { SIGINT } else { SIGTERM });
@@ -290,5 +372,6 @@ pub fn run(scn: &Scn) {
             simrt::thread::wait_all_exited();
         }
     }
+    drop(tcp_client);
     simrt::finish();
 }
